@@ -319,6 +319,37 @@ def exec_config(case):
     return events, {'params': p}
 
 
+POINT_GROUPS = ['C1', 'Cs', 'C2', 'C2v', 'C3v', 'Cinfv', 'D2h', 'D3h', 'D5h', 'Dinfh', 'D3d', 'Td', 'Oh']
+
+
+def exec_labels(case):
+    """symmetry numbers given as point-group labels: every documented label, plus labels that are not documented"""
+    import warnings
+    warnings.simplefilter('ignore')
+    from pmutt.statmech import rot, StatMech
+    rnd = random.Random(case['cseed'])
+    events = []
+    for label in POINT_GROUPS + ['C7x', 'td', '']:
+        linear = label in ('Cinfv', 'Dinfh')
+        thetas = [rnd.uniform(0.5, 80)] if linear else [rnd.uniform(0.05, 60) for _ in range(3)]
+        geom = 'linear' if linear else 'nonlinear'
+        T = rnd.uniform(100, 3000)
+        try:
+            if case['via'] == 'statmech':          # through the species constructor's keyword routing
+                sp = StatMech(rot_model=rot.RigidRotor, symmetrynumber=label, rot_temperatures=thetas, geometry=geom)
+                r = sp.rot_model
+            else:
+                r = rot.RigidRotor(symmetrynumber=label, rot_temperatures=thetas, geometry=geom)
+            sigma = r.symmetrynumber
+            q = float(r.get_q(T=T))
+            qnum = float(rot.RigidRotor(symmetrynumber=sigma, rot_temperatures=thetas, geometry=geom).get_q(T=T))
+            events.append({'ev': 'pointgroup', 'label': label, 'st': 'ok', 'sigma': to_dec(float(sigma)),
+                           'q': to_dec(q), 'qnum': to_dec(qnum)})
+        except ValueError:
+            events.append({'ev': 'pointgroup', 'label': label, 'st': 'raise', 'sigma': [0, 0], 'q': [0, 0], 'qnum': [0, 0]})
+    return events, {}
+
+
 def exec_cache(case):
     """VibCache behaviour -> real object; getter equality with a fresh object built from TLC's valid list"""
     import warnings
@@ -417,6 +448,8 @@ def execute(case):
             return exec_config(case)
         if case['kind'] == 'cache':
             return exec_cache(case)
+        if case['kind'] == 'labels':
+            return exec_labels(case)
         return exec_geometry(case)
     except core.MachineryError:
         raise
@@ -475,6 +508,9 @@ def run(ctx):
         rnd.shuffle(names)
         for mol in names[:ctx.pick(60, len(names))]:
             cases.append({'kind': 'geometry', 'mol': mol, 'nsteps': ctx.pick(4, 12), 'cseed': rnd.randrange(1 << 30)})
+    if ctx.replay_case is None:
+        for via in ('direct', 'statmech'):
+            cases.append({'kind': 'labels', 'via': via, 'cseed': rnd.randrange(1 << 30)})
     results = core.pmap(execute, cases)
     traces = []
     for tid, (case, (events, info)) in enumerate(zip(cases, results)):
@@ -487,6 +523,8 @@ def run(ctx):
         elif case['kind'] == 'cache':
             if len(case['steps']) > 1:
                 ctx.nontrivial(['cache', case['vibkind'], case['steps']])
+        elif case['kind'] == 'labels':
+            ctx.nontrivial(['labels', case['via']])
         else:
             ctx.nontrivial(['geometry', case['mol'], case['cseed']])
         if 'raised' in info:
